@@ -19,11 +19,12 @@ type aliasSets struct {
 	parent  map[types.Object]types.Object
 	done    map[ast.Node]bool
 	self    map[types.Object]bool // two different paths inside the variable may share storage (x.a = x.b[1:])
+	addr    map[types.Object]bool // the address of (part of) the variable is taken: a pointer may point into it
 	heapObj types.Object          // stands for the storage held in fields of heap objects
 }
 
 func newAliasSets() *aliasSets {
-	return &aliasSets{parent: map[types.Object]types.Object{}, done: map[ast.Node]bool{}, self: map[types.Object]bool{}, heapObj: types.NewVar(token.NoPos, nil, "heap!storage", types.Typ[types.Int])}
+	return &aliasSets{parent: map[types.Object]types.Object{}, done: map[ast.Node]bool{}, self: map[types.Object]bool{}, addr: map[types.Object]bool{}, heapObj: types.NewVar(token.NoPos, nil, "heap!storage", types.Typ[types.Int])}
 }
 
 func (a *aliasSets) find(o types.Object) types.Object {
@@ -41,6 +42,9 @@ func (a *aliasSets) union(x, y types.Object) {
 		return
 	}
 	rx, ry := a.find(x), a.find(y)
+	if _, ok := a.parent[ry]; !ok {
+		a.parent[ry] = ry
+	}
 	if rx != ry {
 		a.parent[rx] = ry
 	}
@@ -122,6 +126,11 @@ func (x *Exec) aliasDerive(e ast.Expr) []types.Object {
 		return derive(n.X)
 	case *ast.UnaryExpr:
 		if n.Op == token.AND {
+			if _, isLit := ast.Unparen(n.X).(*ast.CompositeLit); !isLit {
+				if r := x.rootObj(n.X); r != nil {
+					x.c.alias.addr[r] = true
+				}
+			}
 			return derive(n.X)
 		}
 	case *ast.TypeAssertExpr:
@@ -199,7 +208,14 @@ func (x *Exec) aliasAnalyse(body ast.Node) {
 		if root == nil {
 			return
 		}
+		lt := storageComponents(x.aliasTypeOf(lhs))
+		_, addrOf := ast.Unparen(rhsOf).(*ast.UnaryExpr)
 		for _, o := range from {
+			// storage can only be shared through components of one type (element type of a slice or array, a map type,
+			// the pointee of a pointer); taking an address relates a pointer to a variable of any type
+			if !addrOf && o != x.c.alias.heapObj && !intersects(lt, storageComponents(o.Type())) {
+				continue
+			}
 			if o == root {
 				// x.f = append(x.f, v) and x.f = x.f[a:b] keep the path; anything else lets two paths inside x share
 				if lp, rp := storagePath(lhs), storagePath(rhsOf); lp == "" || lp != rp {
@@ -316,4 +332,48 @@ func (x *Exec) aliasParams(sig *types.Signature) {
 			}
 		}
 	}
+}
+
+// storageComponents: the types through which a value of type t can share storage with another value.
+func storageComponents(t types.Type) map[string]bool {
+	out := map[string]bool{}
+	var rec func(t types.Type, depth int)
+	rec = func(t types.Type, depth int) {
+		if t == nil || depth > 6 {
+			return
+		}
+		switch k, _ := classify(t); k {
+		case kObj, kRef:
+			return
+		}
+		switch u := t.Underlying().(type) {
+		case *types.Slice:
+			out["elem:"+types.TypeString(u.Elem(), nil)] = true
+			rec(u.Elem(), depth+1)
+		case *types.Array:
+			out["elem:"+types.TypeString(u.Elem(), nil)] = true
+			rec(u.Elem(), depth+1)
+		case *types.Map:
+			out["map:"+types.TypeString(u, nil)] = true
+			rec(u.Elem(), depth+1)
+		case *types.Pointer:
+			out["ptr:"+types.TypeString(u.Elem(), nil)] = true
+			rec(u.Elem(), depth+1)
+		case *types.Struct:
+			for i := 0; i < u.NumFields(); i++ {
+				rec(u.Field(i).Type(), depth+1)
+			}
+		}
+	}
+	rec(t, 0)
+	return out
+}
+
+func intersects(a, b map[string]bool) bool {
+	for k := range a {
+		if b[k] {
+			return true
+		}
+	}
+	return false
 }
